@@ -54,7 +54,7 @@ fn main() {
                 batch_seed: env_u64("VERIF_SEED").unwrap_or(DEFAULT_SEED),
                 runs_override: env_u64("VERIF_RUNS"),
                 max_s: env_u64("VERIF_MAX_S").unwrap_or(if tier == "quick" { 600 } else { 6 * 3600 }),
-                per_run_wall_s: 30,
+                per_run_wall_s: 120,
             };
             resolvo_sim::run::set_quiet(true);
             let code = orchestrate::run_check(prop.as_ref(), &tier, &cfg);
@@ -206,6 +206,22 @@ fn main() {
                         println!("{i} {k} {}", v.summary);
                     }
                 }
+            }
+        }
+        // wall time of the bare execution vs the full judge for one seed index (harness profiling)
+        "time" => {
+            let prop = property(&args[2]).expect("unknown property");
+            let i: u64 = args[3].parse().unwrap();
+            let batch = env_u64("VERIF_SEED").unwrap_or(DEFAULT_SEED);
+            let seed = orchestrate::seed_for(batch, prop.id(), i);
+            resolvo_sim::run::set_quiet(true);
+            for sc in prop.gen(seed, Tier::Quick) {
+                let t = std::time::Instant::now();
+                let rec = resolvo_sim::run::execute(&sc);
+                let t_exec = t.elapsed();
+                let t = std::time::Instant::now();
+                let v = prop.judge(&sc);
+                println!("solvables={} exec={:?} judge={:?} polls={} result={}", sc.world.n_solvables(), t_exec, t.elapsed(), rec.stats.cancel_polls, &v.summary[..v.summary.len().min(60)]);
             }
         }
         "show" => {
